@@ -62,7 +62,22 @@ def gen_case(rng, tier):
     n = rng.choice([1, 2, 2, 3, 3, 4, 5, 6])
     depth = rng.choice([2, 3, 4, 5])
     docs = gen.rand_sequence(rng, n, depth, kinds=('s', 's', 's', 'i'), hostile=rng.random() < 0.3,
-                             marker=gen.Marker() if rng.random() < 0.7 else None)
+                             marker=gen.Marker() if rng.random() < 0.6 else None)
+    if rng.random() < 0.3:
+        # a later stage repeating earlier content with scalars that are == but of another type (1 / 1.0 / True)
+        src = copy.deepcopy(rng.choice(docs))
+        for _, nd in emit.walk(src):
+            if nd['t'] == 'sc' and rng.random() < 0.7:
+                v = nd['v']
+                if isinstance(v, bool):
+                    nd['v'] = rng.choice([int(v), float(v)])
+                elif isinstance(v, int) and v in (0, 1):
+                    nd['v'] = rng.choice([bool(v), float(v)])
+                elif isinstance(v, int) and abs(v) < 2 ** 50:
+                    nd['v'] = float(v)
+                elif isinstance(v, float) and v == v and abs(v) < 2 ** 50 and v == int(v):
+                    nd['v'] = int(v)
+        docs.insert(rng.randrange(1, len(docs) + 1), src)
     style = rng.choice(['flow', 'block', 'block'])
     seed = rng.randrange(1 << 30)
     texts = []
@@ -138,19 +153,4 @@ def _kinds(d, out, depth=0):
 
 
 def classify(case, datas, exp, got):
-    """mechanism label of a disagreement (used only to match known_findings.json)"""
-    if got[0] == 'ok' and exp[0] == 'ok':
-        # keys starting with '_' missing from the result and nothing else wrong?
-        g = _strip_us(util.loose(dict(got[1])))
-        e = _strip_us(util.loose(exp[1]))
-        if util.typed(g) == util.typed(e):
-            return 'underscore-key-lost'
     return 'result-differs-from-fold'
-
-
-def _strip_us(v):
-    if isinstance(v, dict):
-        return {k: _strip_us(x) for k, x in v.items() if not (isinstance(k, str) and k.startswith('_'))}
-    if isinstance(v, list):
-        return [_strip_us(x) for x in v]
-    return v
